@@ -88,9 +88,12 @@ Definition bt2_leaf_cap (ns rs : N) : N := (ns - 10) / rs.
    [data address (O): contiguous - the raw data, chunked - the v1 B-tree; absent for compact] |
    dimension sizes (4 each, [dimensionality] of them; chunked: dimensionality = dataset rank + 1 and the last one is the dataset
    element size) | [compact: data size (4) | raw data]
-   The size of contiguous storage is not stored: it is the product of the dimension sizes times the element size [esz] of the
-   dataset's datatype.  Same result type as the version 3 decoder. *)
-Definition spec_dec_layout12 (osz : nat) (esz : N) (pad_ok : bool) (bs : bytes) : outcome layout_spec :=
+   The size of contiguous storage is not stored: it is the product of the dimension sizes and the element size.  The reference
+   library up to 1.4 wrote the element size as an extra last dimension for every layout class (dimensionality = rank + 1; the
+   specification says so for chunked storage only) and ignores the dimension sizes of contiguous storage when reading: both
+   dimensionalities are accepted for contiguous storage - [rank] (of the dataspace) + 1 with the last size equal to the element size
+   [esz] of the datatype, or [rank].  Same result type as the version 3 decoder. *)
+Definition spec_dec_layout12 (osz : nat) (rank : nat) (esz : N) (pad_ok : bool) (bs : bytes) : outcome layout_spec :=
   '(ver, r) <- p_byte bs;;
   _ <- guard ((ver =? 1) || (ver =? 2));;
   '(nd, r) <- p_byte r;;
@@ -103,7 +106,9 @@ Definition spec_dec_layout12 (osz : nat) (esz : N) (pad_ok : bool) (bs : bytes) 
     '(a, r) <- p_u osz r;;
     '(dims, r) <- p_us 4 (N.to_nat nd) r;;
     _ <- p_end pad_ok r;;
-    Ok (LyContiguous a (fold_left N.mul dims 1 * esz))
+    let p := fold_left N.mul dims 1 in
+    if (N.to_nat nd =? S rank)%nat then _ <- guard (last dims 0 =? esz);; Ok (LyContiguous a p)
+    else _ <- guard (N.to_nat nd =? rank)%nat;; Ok (LyContiguous a (p * esz))
   else if cls =? 2 then
     _ <- guard (0 <? nd);;
     '(a, r) <- p_u osz r;;
